@@ -248,7 +248,7 @@ Next ==
     /\ Bounded(S)
     /\ \E rv \in { [k \in 1..8 |-> RandomElement(0..9999)] } :
        \E plan \in { IF todo # <<>> THEN todo
-                     ELSE LET p == Plan(S, rv) IN IF p = <<>> THEN << TickAct(1 + rv[8] % 3) >> ELSE p } :
+                     ELSE LET p == Plan(S, rv) IN IF p = <<>> THEN << TickAct(1 + (rv[8] % 3)) >> ELSE p } :
        LET a == Head(plan)
            r == Step(S, a)
        IN /\ S' = r.S
